@@ -80,6 +80,9 @@ TRUSTED = [
     'domain: names without newline, without Unicode white space; file destinations without trailing slash; '
     'symlinks only as leaves; owner/group requests are not combined with setuid/setgid permissions (chown clears them); '
     'chown/strip/rpath/install scripts/SELinux/stamp files not exercised',
+    'time stamps: generated in whole microseconds (the installer compares os.stat().st_mtime, a float whose resolution at '
+    "today's epoch is ~0.24 us; two stamps closer than that are not told apart and lie outside the validated domain); "
+    'the scratch file system keeps nanosecond time stamps (tmpfs; what is judged is always the stamp read back with stat)',
 ]
 
 KEY_DOTDOT = 'dotdot-install-dir-escapes-destdir'
@@ -197,7 +200,7 @@ def walk_records(top: str) -> list:
 
 
 def make_tree(R: str, nodes: list) -> None:
-    """nodes: ['d', rel, mode] | ['f', rel, mode, content, mtime_s] | ['l', rel, target]  (parents first)"""
+    """nodes: ['d', rel, mode] | ['f', rel, mode, content, mtime_s(, mtime_ns_part)] | ['l', rel, target]  (parents first)"""
     nodes = [[n[0], n[1].replace('{P}', P_of(R)[1:])] + list(n[2:]) for n in nodes]
     made = []
     for n in nodes:
@@ -223,7 +226,13 @@ def make_tree(R: str, nodes: list) -> None:
             os.chmod(p, n[2])
         elif n[0] == 'f':
             os.chmod(p, n[2])
-            os.utime(p, ns=(n[4] * 10**9, n[4] * 10**9))
+            ns = node_ns(n)
+            os.utime(p, ns=(ns, ns))
+
+
+def node_ns(n: list) -> int:
+    """time stamp of a generated file node in nanoseconds: whole seconds n[4] plus the optional sub-second part n[5]"""
+    return n[4] * 10**9 + (n[5] if len(n) > 5 else 0)
 
 
 # ------------------------------------------------------------------ spec -> real InstallData / model request
@@ -488,14 +497,15 @@ def run_case(spec: dict, R: str) -> dict:
             # a source changes between two installs: new content, new mtime; the model continues from the observed tree
             flush()
             seg_ops = []
-            for rel, content, mt in op['files']:
+            for rel, content, mt, *sub in op['files']:
                 p = os.path.join(R, rel)
                 if os.path.isfile(p) and not os.path.islink(p):
                     m = stat.S_IMODE(os.stat(p).st_mode)
                     with open(p, 'wb') as f:
                         f.write(content.encode())
                     os.chmod(p, m)
-                    os.utime(p, ns=(mt * 10**9, mt * 10**9))
+                    ns = mt * 10**9 + (sub[0] if sub else 0)
+                    os.utime(p, ns=(ns, ns))
             snap = snapshot(R)
             res['steps'].append({'op': op, 'err': 'ok', 'detail': '', 'log': [], 'tree': snap, 'nomodel': True})
             seg_plan = plan_sx(spec, R)
@@ -651,6 +661,73 @@ def expected_tree(spec: dict, op: dict, R: str, before: T.Dict[str, tuple]) -> T
     return out
 
 
+def file_rules(spec: dict, op: dict, R: str, tree: T.Dict[str, tuple]) -> T.List[tuple]:
+    """(destination, source path, install_mode, rule kind) of every selected rule that copies one regular file:
+    targets, headers, man pages, data, and the files below an install_subdir (excludes applied)"""
+    out: T.List[tuple] = []
+    for e in spec.get('targets', []):
+        if selected(op, e):
+            srcp = os.path.join(R, 'build', S(e['path'], R))
+            out.append((os.path.join(dest_of(spec, op, R, e['ip']), os.path.basename(srcp)), srcp, e['mode'], 'targets'))
+    for e in spec.get('headers', []):
+        if selected(op, e):
+            srcp = S(e['path'], R)
+            out.append((os.path.join(dest_of(spec, op, R, e['ip']), os.path.basename(srcp)), srcp, e['mode'], 'headers'))
+    for kind in ('man', 'data'):
+        for e in spec.get(kind, []):
+            if selected(op, e):
+                out.append((dest_of(spec, op, R, e['ip']), S(e['path'], R), e['mode'], kind))
+    for e in spec.get('subdirs', []):
+        if not selected(op, e):
+            continue
+        top = S(e['path'], R)
+        dst = dest_of(spec, op, R, e['ip'])
+        exf = set(os.path.normpath(x) for x in (e.get('exclude') or ([], []))[0])
+        exd = set(os.path.normpath(x) for x in (e.get('exclude') or ([], []))[1])
+        for p, n in tree.items():
+            if n[0] != 'f' or not under(p, top) or p == top:
+                continue
+            rel = os.path.relpath(p, top)
+            parts = rel.split('/')
+            if rel in exf or any('/'.join(parts[:i]) in exd for i in range(1, len(parts))):
+                continue
+            out.append((os.path.join(dst, rel), p, e['mode'], 'subdirs'))
+    return out
+
+
+def oracle_only_changed(ctx: Ctx, spec: dict, op: dict, R: str, prev: T.Dict[str, tuple], cur: T.Dict[str, tuple], case: dict) -> None:
+    """`--only-changed`: "Only overwrite files that are older than the copied file" (meson install --help), judged per
+    file rule on the listings before and after the run, time stamps in nanoseconds: a destination that was older than
+    its source -- by however little -- holds the source's content and time stamp afterwards; one that was at least as
+    new keeps its content and time stamp"""
+    name = spec['name']
+    for dstp, srcp, mode, kind in file_rules(spec, op, R, prev):
+        sn = prev.get(srcp)
+        if sn is None or sn[0] != 'f':
+            continue
+        dn = prev.get(dstp)
+        got = cur.get(dstp)
+        if dn is not None and dn[0] == 'f' and dn[3] >= sn[3]:
+            want = ('f', dn[1] if kind == 'targets' else want_file_mode(spec, mode, dn[1]), dn[2], dn[3])
+            ctx.tag('oracle:only-changed-kept')
+        elif dn is None or dn[0] == 'f':
+            want = ('f', want_file_mode(spec, mode, sn[1]), sn[2], sn[3])
+            if dn is not None:
+                gap = sn[3] - dn[3]
+                ctx.tag('oracle:only-changed-overwritten:' + ('<1ms' if gap < 10**6 else '<1s' if gap < 10**9 else '>=1s') +
+                        (':same-second' if sn[3] // 10**9 == dn[3] // 10**9 else ''))
+        else:
+            continue
+        if got != want:
+            stale = got is not None and dn is not None and got[2:] == dn[2:] and want[2:] != dn[2:]
+            ctx.violation(f'only-changed-stale:{name}' if stale else f'only-changed:{name}',
+                          f'{os.path.relpath(dstp, R)} after --only-changed: got {got}, want {want}; before the run the '
+                          f'destination was {dn} and the source {os.path.relpath(srcp, R)} was {sn}'
+                          + (f' (the installed copy was {(sn[3] - dn[3]) / 1e9:.9f}s older than its source and was kept)' if stale else ''),
+                          case)
+            return
+
+
 def log_paths(log: T.List[str]) -> T.List[str]:
     return [l for l in log if not l.startswith('#')]
 
@@ -720,6 +797,9 @@ def oracle_case(ctx: Ctx, spec: dict, R: str, res: dict) -> None:
                             ctx.tag('oracle:links-exact:' + spec['linkcase']['variant'])
                     elif spec.get('linkcase'):
                         ctx.tag('oracle:links-unjudged:' + spec['linkcase']['variant'])
+                # --- --only-changed overwrites exactly the destinations that are older than their source
+                if st['err'] == 'ok' and not op.get('dry') and op.get('only') and spec.get('clean'):
+                    oracle_only_changed(ctx, spec, op, R, prev, cur, case)
                 # --- the log names everything that was created
                 if st['err'] == 'ok' and not op.get('dry'):
                     named = set(os.path.normpath(l) for l in log_paths(st['log']))
@@ -836,6 +916,32 @@ def jn(d: str, n: str) -> str:
     return os.path.join(d, n)
 
 
+NS = 10**9
+# how much later (or earlier) a rewritten source is stamped: far apart, and close -- within the same clock second,
+# across a second boundary by a hair, equal.  Differences are multiples of 1 us: os.stat().st_mtime, which the installer
+# compares, is a float with ~0.24 us resolution at today's epoch (see ctx.assumptions).
+TOUCH_DELTAS = [-50 * NS, 2000 * NS, 3000 * NS, 1_000, 1_000_000, 300_000_000, 999_999_000, NS, -1_000, 0, 'same-second', 'next-second']
+
+
+def subsec(rng: random.Random) -> int:
+    """sub-second part of a generated time stamp, a multiple of 1 us"""
+    return rng.choice([0, 200_000_000, 999_999_000, rng.randrange(10**6) * 1000])
+
+
+def touch_entry(rng: random.Random, n: list) -> list:
+    """a rewrite of the generated file node `n`: [rel, new content, mtime_s, mtime_ns_part]"""
+    old = node_ns(n)
+    d = rng.choice(TOUCH_DELTAS)
+    if d == 'same-second':
+        lo, hi = old % NS, NS - 1000
+        new = old - lo + (rng.randrange(lo // 1000 + 1, hi // 1000 + 1) * 1000 if hi > lo else lo)
+    elif d == 'next-second':
+        new = (old // NS + 1) * NS + rng.choice([0, 1_000])
+    else:
+        new = old + d
+    return [n[1], n[3] + ' v2', new // NS, new % NS]
+
+
 def gen_case(rng: random.Random, idx: int, kind: str) -> dict:
     """kind: 'clean' (distinct destinations, fresh DESTDIR, plain sources) | 'messy' (collisions, pre-populated,
     symlink sources, odd spellings) | 'nodestdir'"""
@@ -856,7 +962,8 @@ def gen_case(rng: random.Random, idx: int, kind: str) -> dict:
         nsrc[0] += 1
         name = rng.choice(FILEN)
         rel = f'{where}/s{nsrc[0]}/{name}'
-        tree.append(['f', rel, rng.choice(SRCMODES) if mode is None else mode, f'content {idx} {nsrc[0]}', t0 + rng.randint(0, 1000)])
+        tree.append(['f', rel, rng.choice(SRCMODES) if mode is None else mode, f'content {idx} {nsrc[0]}', t0 + rng.randint(0, 1000),
+                     subsec(rng)])
         return '{R}/' + rel
 
     def new_link_src() -> str:
@@ -948,7 +1055,8 @@ def gen_case(rng: random.Random, idx: int, kind: str) -> dict:
         for holder in [''] + dirs:
             for fn in rng.sample(FILEN, rng.randint(0, 2)):
                 rel = f'{holder}/{fn}'.lstrip('/')
-                tree.append(['f', f'{base}/{rel}', rng.choice(SRCMODES), f'tree {idx} {si} {rel}', t0 + rng.randint(0, 1000)])
+                tree.append(['f', f'{base}/{rel}', rng.choice(SRCMODES), f'tree {idx} {si} {rel}', t0 + rng.randint(0, 1000),
+                             subsec(rng)])
                 files.append(rel)
         if not clean and rng.random() < 0.3:
             tree.append(['l', f'{base}/dangling-link', 'nowhere'])
@@ -1010,7 +1118,7 @@ def gen_case(rng: random.Random, idx: int, kind: str) -> dict:
     elif h < 0.65:
         ops = [base_op, dict(base_op, only=True), {'op': 'uninstall'}]
     elif h < 0.8:
-        touched = [[n[1], n[3] + ' v2', t0 + rng.choice([-50, 2000, 3000])] for n in tree
+        touched = [touch_entry(rng, n) for n in tree
                    if n[0] == 'f' and n[1].startswith(('src/', 'build/')) and rng.random() < 0.5]
         ops = [base_op, {'op': 'touch', 'files': touched}, dict(base_op, only=True), dict(base_op, only=True)]
     elif h < 0.9:
@@ -1063,6 +1171,45 @@ def link_case(rng: random.Random, idx: int) -> dict:
         spec[kind] = [lnk, sib] if variant == 'sib-late' else [sib, lnk]
     base_op = {'op': 'install', 'destdir': '{R}/dest', 'ambient': rng.choice(AMBIENT)}
     spec['ops'] = rng.choice([[base_op], [base_op, dict(base_op)], [base_op, {'op': 'uninstall'}]])
+    return spec
+
+
+def subsec_case(rng: random.Random, idx: int) -> dict:
+    """install; rewrite sources with time stamps close to the old ones; install --only-changed (twice): one rule of every
+    file-installing kind plus a subdirectory, distinct destinations, fresh DESTDIR"""
+    t0 = 1_500_000_000 + rng.randrange(0, 400_000_000)
+    tree: list = []
+    spec: dict = {'name': f'subsec-{idx}', 'clean': True, 'fresh': True, 'umask': rng.choice([0o022, 0o077, 0o027, 'preserve']),
+                  'prefix': '{P}/usr', 'tree': tree}
+    for k in ('subdirs', 'targets', 'headers', 'man', 'data', 'emptydirs', 'symlinks'):
+        spec[k] = []
+
+    def src(rel: str) -> str:
+        tree.append(['f', rel, rng.choice([0o644, 0o755, 0o600]), f'v1 {idx} {rel}', t0 + rng.randint(0, 3), subsec(rng)])
+        return '{R}/' + rel
+
+    def cf() -> dict:
+        return {'mode': rng.choice([None, None, {'perms': 'rw-r-----'}, {'perms': 'rwxr-xr-x'}]), 'sub': '', 'tag': None}
+    for i in range(rng.randint(1, 2)):
+        spec['data'].append({'path': src(f'src/d{i}/data {i}.txt'), 'ip': f'share/app/data {i}.txt', 'follow': None, **cf()})
+    spec['headers'].append({'path': src('src/h/api.h'), 'ip': 'include/sub dir', 'follow': None, **cf()})
+    spec['man'].append({'path': src('src/m/tool.1'), 'ip': 'share/man/man1/tool.1', **cf()})
+    spec['targets'].append({'path': src('build/prog'), 'ip': 'bin', **cf()})
+    tree.append(['d', 'src/tree', 0o755])
+    tree.append(['d', 'src/tree/in ner', 0o750])
+    src('src/tree/top.txt')
+    src('src/tree/in ner/deep.txt')
+    src('src/tree/in ner/skipped.txt')
+    spec['subdirs'].append({'path': '{R}/src/tree', 'ip': '{P}/usr/share/tree', 'exclude': [['in ner/skipped.txt'], []],
+                            'follow': None, **cf()})
+    files = [n for n in tree if n[0] == 'f']
+    touched = [touch_entry(rng, n) for n in files if rng.random() < 0.75]
+    base_op = {'op': 'install', 'destdir': '{R}/dest', 'ambient': 0o022}
+    spec['ops'] = [base_op, {'op': 'touch', 'files': touched}, dict(base_op, only=True), dict(base_op, only=True)]
+    if rng.random() < 0.3:
+        # a second round of rewrites, relative to the first one
+        again = [touch_entry(rng, ['f', t[0], 0, t[1], t[2], t[3]]) for t in touched if rng.random() < 0.5]
+        spec['ops'] += [{'op': 'touch', 'files': again}, dict(base_op, only=True)]
     return spec
 
 
@@ -1363,6 +1510,171 @@ def unit_stream(ctx: Ctx) -> None:
                 ctx.disagreement({'kind': 'unit', 'line': l, 'impl': w, 'model': g})
 
 
+# ------------------------------------------------------------------ decisions on file metadata
+
+# every place of minstall.py that reads a stat field, and how this check drives it.  Harvested from the live source on
+# every run: a site that is not listed here is a metadata-dependent decision nothing drives -> failed obligation.
+KNOWN_METADATA_SITES = {
+    ('is_executable', 'st_mode'): 'driven: source-mode x umask grid (an execute bit decides between 0o777 and 0o666)',
+    ('Installer.should_preserve_existing_file', 'st_mtime'): 'driven: preserve stream (stat tuples, nanosecond time '
+                                                             'stamps) and the rewrite histories',
+    ('check_for_stampfile', 'st_size'): 'not exercised: stamp files of Rust targets (see TRUSTED)',
+    ('rebuild_all.drop_privileges', 'st_uid'): 'not exercised: every run uses --no-rebuild',
+}
+METADATA_CALLS = {'getmtime', 'getsize', 'getctime', 'getatime', 'samefile', 'samestat'}
+
+
+def harvest_metadata_sites() -> T.Set[T.Tuple[str, str]]:
+    import ast
+    with open(os.path.join(common.REPO, 'mesonbuild', 'minstall.py'), encoding='utf-8') as f:
+        mod = ast.parse(f.read())
+    found: T.Set[T.Tuple[str, str]] = set()
+
+    def visit(node: ast.AST, qual: T.Tuple[str, ...]) -> None:
+        for ch in ast.iter_child_nodes(node):
+            if isinstance(ch, (ast.FunctionDef, ast.AsyncFunctionDef, ast.ClassDef)):
+                visit(ch, qual + (ch.name,))
+                continue
+            if isinstance(ch, ast.Attribute) and (ch.attr.startswith('st_') or ch.attr in METADATA_CALLS):
+                found.add(('.'.join(qual) or '<module>', ch.attr))
+            visit(ch, qual)
+    visit(mod, ())
+    return found
+
+
+def metadata_obligation(ctx: Ctx) -> None:
+    try:
+        found = harvest_metadata_sites()
+    except Exception as e:
+        ctx.obligation_failed('metadata-sites', f'cannot harvest minstall.py: {type(e).__name__}: {e}')
+        return
+    for site in sorted(found):
+        ctx.tag('metadata-site:' + site[0] + ':' + site[1])
+    new = sorted(found - set(KNOWN_METADATA_SITES))
+    if new:
+        ctx.obligation_failed('metadata-decision-not-driven',
+                              'minstall.py reads file metadata at places this check does not drive: ' +
+                              ', '.join(f'{f}:{a}' for f, a in new))
+    for site in sorted(set(KNOWN_METADATA_SITES) - found):
+        ctx.notes.append(f'metadata site {site[0]}:{site[1]} is no longer in minstall.py')
+
+
+def preserve_stream(ctx: Ctx) -> None:
+    """`Installer.should_preserve_existing_file` itself on generated stat tuples (--only-changed, kind and mtime_ns of
+    the source, kind and mtime_ns of the destination; differences from 1 us to minutes, inside one clock second and
+    across a second boundary), judged against the documented rule and compared with the model"""
+    from mesonbuild import minstall
+    rng = ctx.rng
+    try:
+        insts = {o: minstall.Installer(argparse.Namespace(dry_run=False, skip_subprojects='', tags=None, only_changed=o,
+                                                          quiet=True), None) for o in (False, True)}
+        fn = {o: insts[o].should_preserve_existing_file for o in insts}
+    except Exception as e:
+        ctx.obligation_failed('preserve-stream', f'cannot reach Installer.should_preserve_existing_file: {type(e).__name__}: {e}')
+        return
+    base = scratch_base()
+    lines: T.List[str] = []
+    want_model: T.List[str] = []
+    try:
+        d = os.path.join(base, 'pz')
+        os.makedirs(os.path.join(d, 'sdir'))
+        for nme in ('sf', 'sreal', 'df', 'dreal'):
+            with open(os.path.join(d, nme), 'w') as f:
+                f.write(nme)
+        os.symlink('sreal', os.path.join(d, 'slf'))
+        os.symlink('nowhere', os.path.join(d, 'sld'))
+        os.symlink('sdir', os.path.join(d, 'slD'))
+        os.symlink('dreal', os.path.join(d, 'dlf'))
+        spath = {'f': 'sf', 'lf': 'slf', 'ld': 'sld', 'lD': 'slD'}
+        dpath = {'f': 'df', 'lf': 'dlf'}
+        for _ in range(ctx.scale(4000, 40000)):
+            only = rng.random() < 0.85
+            sk = rng.choice(['f', 'f', 'f', 'lf', 'ld', 'lD'])
+            dk = rng.choice(['f', 'f', 'lf'])
+            t_dst = rng.randrange(1_000_000_000, 1_900_000_000) * NS + subsec(rng)
+            k = rng.random()
+            if k < 0.15:
+                delta = 0
+            elif k < 0.45:
+                delta = rng.choice([1_000, 2_000, 1_000_000, 500_000_000, 999_999_000]) * rng.choice([1, -1])
+            elif k < 0.65:
+                # inside the destination's clock second
+                delta = rng.randrange(0, 10**6) * 1000 - t_dst % NS
+            elif k < 0.75:
+                # just across a second boundary
+                delta = (NS - t_dst % NS) + rng.choice([0, 1_000]) if rng.random() < 0.5 else -(t_dst % NS) - rng.choice([1_000, 2_000])
+            else:
+                delta = rng.choice([NS, 2 * NS, 60 * NS, 86400 * NS]) * rng.choice([1, -1]) + rng.choice([0, 1_000, -1_000])
+            t_src = t_dst + delta
+            sp, dp = os.path.join(d, spath[sk]), os.path.join(d, dpath[dk])
+            os.utime(dp, ns=(t_dst, t_dst))                     # follows the link: the file `stat` sees
+            if sk in ('f', 'lf'):
+                os.utime(sp, ns=(t_src, t_src))
+            try:
+                got = bool(fn[only](sp, dp))
+                gots = str(int(got))
+            except Exception as e:
+                got = None
+                gots = 'ERR:' + type(e).__name__
+            if sk in ('f', 'lf'):
+                a_src, a_dst = os.stat(sp).st_mtime_ns, os.stat(dp).st_mtime_ns
+                want = only and a_dst >= a_src
+            else:
+                a_src, a_dst = 0, os.stat(dp).st_mtime_ns
+                want = False                                    # a dangling link / a link to a directory is always installed again
+            gap = a_src - a_dst
+            ctx.tag('preserve:' + ('off' if not only else sk + ':' + dk + ':' +
+                                   ('equal' if gap == 0 else ('src-newer' if gap > 0 else 'dst-newer') +
+                                    (':<1ms' if abs(gap) < 10**6 else ':<1s' if abs(gap) < NS else ':>=1s'))))
+            if got is not want:
+                side = 'stale-kept' if (want is False and got) else 'overwritten' if got is False else 'raised'
+                ctx.violation(f'only-changed-decision:{side}:{sk}:{dk}',
+                              f'should_preserve_existing_file(only_changed={only}, source {sk} mtime_ns={a_src}, destination {dk} '
+                              f'mtime_ns={a_dst}) = {gots}; "only overwrite files that are older than the copied file" gives {want} '
+                              f'(destination is {gap / 1e9:.9f}s older than the source)',
+                              {'preserve': {'only': only, 'src_kind': sk, 'src_mtime_ns': a_src, 'dst_kind': dk, 'dst_mtime_ns': a_dst}})
+            lines.append(f'preserve {int(only)}|{sk}|{a_src}|{dk}|{a_dst}')
+            want_model.append(gots)
+    finally:
+        common.rmtree(base)
+    ctx.count(len(lines))
+    if ctx.model_available and lines:
+        for l, w, g in zip(lines, want_model, ctx.driver('install', lines)):
+            if w != g:
+                ctx.disagreement({'kind': 'unit', 'line': l, 'impl': w, 'model': g})
+
+
+def replay_preserve(ctx: Ctx, c: dict) -> None:
+    from mesonbuild import minstall
+    base = scratch_base()
+    try:
+        sp, dp = os.path.join(base, 's'), os.path.join(base, 'd')
+        for q in (sp, dp):
+            with open(q, 'w') as f:
+                f.write(q)
+        if c['src_kind'] == 'lf':
+            os.symlink('s', os.path.join(base, 'sl'))
+            sp = os.path.join(base, 'sl')
+        elif c['src_kind'] in ('ld', 'lD'):
+            os.symlink('nowhere' if c['src_kind'] == 'ld' else '.', os.path.join(base, 'sl'))
+            sp = os.path.join(base, 'sl')
+        if c['dst_kind'] == 'lf':
+            os.symlink('d', os.path.join(base, 'dl'))
+            dp = os.path.join(base, 'dl')
+        os.utime(dp, ns=(c['dst_mtime_ns'], c['dst_mtime_ns']))
+        if c['src_kind'] in ('f', 'lf'):
+            os.utime(sp, ns=(c['src_mtime_ns'], c['src_mtime_ns']))
+        inst = minstall.Installer(argparse.Namespace(dry_run=False, skip_subprojects='', tags=None, only_changed=c['only'],
+                                                     quiet=True), None)
+        got = inst.should_preserve_existing_file(sp, dp)
+        want = bool(c['only'] and c['src_kind'] in ('f', 'lf') and c['dst_mtime_ns'] >= c['src_mtime_ns'])
+        print(f'should_preserve_existing_file -> {got}; documented rule -> {want}')
+        if bool(got) is not want:
+            ctx.violation('only-changed-decision:replay', f'got {got}, want {want}', {'preserve': c})
+    finally:
+        common.rmtree(base)
+
+
 # ------------------------------------------------------------------ run
 
 def make_cases(ctx: Ctx) -> T.List[dict]:
@@ -1379,6 +1691,8 @@ def make_cases(ctx: Ctx) -> T.List[dict]:
         cases.append(dotdot_case(rng, i))
     for i in range(n // 6):
         cases.append(link_case(rng, i))
+    for i in range(n // 5):
+        cases.append(subsec_case(rng, i))
     return cases
 
 
@@ -1450,6 +1764,9 @@ def run(ctx: Ctx) -> None:
     cases = make_cases(ctx)
     results = execute(ctx, cases)
     judge(ctx, results)
+    # decisions that depend on file metadata: the real function on stat tuples; every stat read of minstall.py is known
+    preserve_stream(ctx)
+    metadata_obligation(ctx)
     # second stream: build definition -> meson setup -> meson install, judged against Installing.md
     c11_e2e.run_stream(ctx, scratch_base, ctx.scale(28, 250))
     # pure functions last (so that a failing input from a real installation is reported first)
@@ -1500,6 +1817,10 @@ def replay(ctx: Ctx, rep: dict) -> None:
     case = rep.get('case', {})
     if case.get('e2e'):
         c11_e2e.replay_e2e(ctx, case['e2e'], scratch_base)
+        print('violations:', json.dumps(ctx.violations, default=repr)[:2000])
+        return
+    if case.get('preserve'):
+        replay_preserve(ctx, case['preserve'])
         print('violations:', json.dumps(ctx.violations, default=repr)[:2000])
         return
     spec = case.get('spec')
